@@ -34,6 +34,9 @@ class TBuilder(Builder):
         nm = self.name("sec" if section else "tst", uid)
         if r.random() < 0.08:
             nm = r.choice(FRAGMENT_NAMES)        # a name that happens to be a fragment of a keyword
+        elif r.random() < 0.15:
+            # legal CMake names that are not identifiers of the implementation language
+            nm = r.choice([f"tst-N{uid}Z", f"to.N{uid}Z", f"2nd_N{uid}Z", f"c++N{uid}Z", "${pfx}N%dZ" % uid, f"N{uid}Z/x", f"ünïN{uid}Z"])
         if section and self.section_names and r.random() < 0.15:
             nm = r.choice(self.section_names)        # the same section name again, e.g. in another test
             self.reused_names += 1
